@@ -139,7 +139,8 @@ def malformed(kind, row, want=""):
     """One format violation injected into a valid trace must make loading fail.
     kind: 0 clear priority (first row), 1 clear arrival (first row), 2 set priority on a later row,
     3 set arrival on a later row, 4 unknown priority, 5 unknown scaling law, 6 parent not defined earlier,
-    7 no mutation (control: loads fine)."""
+    7 no mutation (control: loads fine), 8-11 zero-valued arrival on a later row, 12 other priority on a later row,
+    13 whitespace arrival on a first row."""
     rows = [list(r) for r in VALID]
     first_rows = [0, 3]
     later_rows = [1, 2, 4]
@@ -151,6 +152,13 @@ def malformed(kind, row, want=""):
         rows[later_rows[row % 3]][2] = "BATCH_PIPELINE"
     elif kind == 3:
         rows[later_rows[row % 3]][1] = "0.5"
+    elif kind in (8, 9, 10, 11):
+        # numerically zero / tiny / negative arrival on a later row is still "set"
+        rows[later_rows[row % 3]][1] = {8: "0", 9: "0.0", 10: "-0.0", 11: "1e-300"}[kind]
+    elif kind == 12:
+        rows[later_rows[row % 3]][2] = "QUERY"          # a different priority on a later row
+    elif kind == 13:
+        rows[first_rows[row % 2]][1] = " "              # blank arrival on a first row
     elif kind == 4:
         rows[first_rows[row % 2]][2] = "URGENT"
     elif kind == 5:
